@@ -285,6 +285,24 @@ Proof.
     unfold grow_to. rewrite Hlay by lia. cbn [negb]. repeat split.
 Qed.
 
+(* zero-sized element types: the vector reports capacity usize::MAX and behaves like a fixed vector
+   of that capacity — the length can never pass usize::MAX, an operation that would overflow it is
+   an error that changes nothing, and the allocator is never asked *)
+Theorem zst_vector_never_overflows al s o grant shrunk got :
+  vcap s = W - 1 -> 0 <= vlen s <= vcap s -> vop_ok o ->
+  let '(s', out) := vstep true 0 al s o grant shrunk got in
+  vcap s' = W - 1 /\ 0 <= vlen s' <= W - 1 /\ (vo_err out <> None -> s' = s) /\ vo_asked out = false /\
+  (forall n, (o = VExtend n \/ (o = VPush /\ n = 1)) -> (vo_err out = None <-> vlen s + n <= W - 1)).
+Proof.
+  intros Hc Hl Ho.
+  destruct o as [n|n| |n| |k| |m]; cbn [vstep orb vop_ok] in *; unfold quiet;
+    try (destruct (Z.ltb_spec (vcap s - vlen s) n) as [Hlt|Hge]);
+    try (destruct (Z.ltb_spec (vcap s - vlen s) 1) as [Hlt|Hge]);
+    cbn [vlen vcap vo_err vo_asked];
+    (split; [lia|]); (split; [lia|]); (split; [try congruence; intros _; reflexivity|]); (split; [reflexivity|]);
+    intros x [E|[E1 E2]]; try discriminate; try (injection E as <-); subst; split; intros Hx; try lia; try congruence; try reflexivity.
+Qed.
+
 (* non-vacuity *)
 Example a_history :
   vrun false 4 4 (mkV 0 0) [(VPush, true, false, 0); (VReserve 10, true, false, 0); (VExtend 10, false, false, 0); (VPush, false, false, 0);
